@@ -9,13 +9,12 @@ import PegVerif.Model.Compile
   test:
 
       chr c   with pd ∧ ¬pmk   ↦  position++
-      rng l h with pd          ↦  position++
-      dot     with pd          ↦  (nothing — not even `position++`)
+      rng l h with pd ∧ ¬pmk   ↦  position++
+      dot     with pd          ↦  position++
 
   `Lead inp p pd pmk e` says that every test elided in the code of `e` would have passed at
-  position `p`.  For `dot` under `pd` no such statement can make the emitted code agree with the
-  semantics (the position is not advanced), and for `e*` under `pd` the body is re-run at later
-  positions with the test still elided; both are excluded (`pd = false`).
+  position `p` (for `dot`: `p` is inside the input).  `&e`, `!e`, `e*` (and `e+`) compile their
+  operand with both flags false, so nothing is elided below them.
 
   `leadOK K pd pmk e` is the decidable check "the symbols of the key set `K` all pass the elided
   tests of `e`"; it implies `Lead` at every position whose symbol is in `K` (`leadOK_sound`).
@@ -26,14 +25,14 @@ mutual
   /-- Every terminal test elided by `compile env e ko pd pmk` would pass at `p`. -/
   def Lead (inp : List Sym) (p : Nat) (pd pmk : Bool) : Expr → Prop
     | .chr c => pd = true → pmk = false → peek inp p = c
-    | .rng lo hi => pd = true → lo ≤ peek inp p ∧ peek inp p ≤ hi
-    | .dot => pd = false
-    | .star _ => pd = false
+    | .rng lo hi => pd = true → pmk = false → lo ≤ peek inp p ∧ peek inp p ≤ hi
+    | .dot => pd = true → p < inp.length
+    | .star _ => True
     | .inl _ e => Lead inp p pd pmk e
     | .push e _ => Lead inp p pd pmk e
     | .ipush e _ => Lead inp p pd pmk e
-    | .peekFor e => Lead inp p pd pmk e
-    | .peekNot e => Lead inp p pd pmk e
+    | .peekFor _ => True
+    | .peekNot _ => True
     | .query e => Lead inp p pd pmk e
     | .seq es => LeadL inp p pd pmk es
     | .alt es => LeadL inp p pd pmk es
@@ -61,8 +60,8 @@ mutual
     | .inl _ e => by simp only [Lead]; exact Lead_false inp p pmk e
     | .push e _ => by simp only [Lead]; exact Lead_false inp p pmk e
     | .ipush e _ => by simp only [Lead]; exact Lead_false inp p pmk e
-    | .peekFor e => by simp only [Lead]; exact Lead_false inp p pmk e
-    | .peekNot e => by simp only [Lead]; exact Lead_false inp p pmk e
+    | .peekFor _ => by simp [Lead]
+    | .peekNot _ => by simp [Lead]
     | .query e => by simp only [Lead]; exact Lead_false inp p pmk e
     | .seq es => by simp only [Lead]; exact LeadL_false inp p pmk es
     | .alt es => by simp only [Lead]; exact LeadL_false inp p pmk es
@@ -93,18 +92,38 @@ theorem keysWithin_sound {K : KeySet} {lo hi c : Nat} (h : keysWithin K lo hi = 
   simp only [Bool.or_eq_true, Bool.and_eq_true, decide_eq_true_eq] at this
   omega
 
+/-- Every code point of `K` is below the end symbol (empty ranges of `K` ignored): a position whose
+    symbol is in `K` is inside the input. -/
+def keysBelowEnd (K : KeySet) : Bool :=
+  K.all (fun r => decide (r.2 < r.1) || decide (r.2 < END))
+
+theorem keysBelowEnd_sound {K : KeySet} {c : Nat} (h : keysBelowEnd K = true)
+    (hc : K.has c = true) : c < END := by
+  simp only [KeySet.has, List.any_eq_true, Bool.and_eq_true, decide_eq_true_eq] at hc
+  obtain ⟨r, hr, h1, h2⟩ := hc
+  have := List.all_eq_true.mp h r hr
+  simp only [Bool.or_eq_true, decide_eq_true_eq] at this
+  omega
+
+/-- `peek` is the end symbol beyond the input. -/
+theorem lt_length_of_peek_lt {inp : List Sym} {p : Nat} (h : peek inp p < END) : p < inp.length := by
+  apply Classical.byContradiction
+  intro hn
+  have : inp[p]? = none := List.getElem?_eq_none (by omega)
+  simp [peek, this] at h
+
 mutual
   /-- The symbols of `K` pass every test that `compile env e ko pd pmk` elides. -/
   def leadOK (K : KeySet) (pd pmk : Bool) : Expr → Bool
     | .chr c => !pd || pmk || keysWithin K c c
-    | .rng lo hi => !pd || keysWithin K lo hi
-    | .dot => !pd
-    | .star _ => !pd
+    | .rng lo hi => !pd || pmk || keysWithin K lo hi
+    | .dot => !pd || keysBelowEnd K
+    | .star _ => true
     | .inl _ e => leadOK K pd pmk e
     | .push e _ => leadOK K pd pmk e
     | .ipush e _ => leadOK K pd pmk e
-    | .peekFor e => leadOK K pd pmk e
-    | .peekNot e => leadOK K pd pmk e
+    | .peekFor _ => true
+    | .peekNot _ => true
     | .query e => leadOK K pd pmk e
     | .seq es => leadOKL K pd pmk es
     | .alt es => leadOKL K pd pmk es
@@ -133,17 +152,22 @@ mutual
       omega
     | .rng lo hi, h => by
       simp only [Lead]
+      intro hpd hpmk
+      subst hpd; subst hpmk
+      simp only [leadOK, Bool.not_true, Bool.false_or] at h
+      exact keysWithin_sound h hK
+    | .dot, h => by
+      simp only [Lead]
       intro hpd
       subst hpd
       simp only [leadOK, Bool.not_true, Bool.false_or] at h
-      exact keysWithin_sound h hK
-    | .dot, h => by simpa [Lead, leadOK] using h
-    | .star _, h => by simpa [Lead, leadOK] using h
+      exact lt_length_of_peek_lt (keysBelowEnd_sound h hK)
+    | .star _, _ => by simp [Lead]
     | .inl _ e, h => by simp only [Lead]; exact leadOK_sound hK e (by simpa only [leadOK] using h)
     | .push e _, h => by simp only [Lead]; exact leadOK_sound hK e (by simpa only [leadOK] using h)
     | .ipush e _, h => by simp only [Lead]; exact leadOK_sound hK e (by simpa only [leadOK] using h)
-    | .peekFor e, h => by simp only [Lead]; exact leadOK_sound hK e (by simpa only [leadOK] using h)
-    | .peekNot e, h => by simp only [Lead]; exact leadOK_sound hK e (by simpa only [leadOK] using h)
+    | .peekFor _, _ => by simp [Lead]
+    | .peekNot _, _ => by simp [Lead]
     | .query e, h => by simp only [Lead]; exact leadOK_sound hK e (by simpa only [leadOK] using h)
     | .seq es, h => by simp only [Lead]; exact leadOKL_sound hK es (by simpa only [leadOK] using h)
     | .alt es, h => by simp only [Lead]; exact leadOKL_sound hK es (by simpa only [leadOK] using h)
@@ -181,7 +205,7 @@ mutual
     | .inl n e, ko, pmk, st => by
       have h := compile_pd_false env e ko pmk st
       simp only [compile, h]
-    | .rng lo hi, ko, pmk, st => by simp only [compile]
+    | .rng lo hi, ko, pmk, st => by simp [compile]
     | .chr c, ko, pmk, st => by simp [compile]
     | .str s, ko, pmk, st => by simp only [compile]
     | .pred c, ko, pmk, st => by simp only [compile]
@@ -201,18 +225,12 @@ mutual
     | .seq es, ko, pmk, st => by
       have h := compileSeq_pd_false env es ko pmk st
       simp only [compile, h]
-    | .peekFor e, ko, pmk, st => by
-      have h := compile_pd_false env e ko pmk { st with label := st.label + 1 }
-      simp only [compile, h]
-    | .peekNot e, ko, pmk, st => by
-      have h := compile_pd_false env e st.label pmk { st with label := st.label + 1 }
-      simp only [compile, h]
+    | .peekFor e, ko, pmk, st => by simp only [compile]
+    | .peekNot e, ko, pmk, st => by simp only [compile]
     | .query e, ko, pmk, st => by
       have h := compile_pd_false env e st.label pmk { st with label := st.label + 2 }
       simp only [compile, h]
-    | .star e, ko, pmk, st => by
-      have h := compile_pd_false env e (st.label + 1) pmk { st with label := st.label + 2 }
-      simp only [compile, h]
+    | .star e, ko, pmk, st => by simp only [compile]
     | .plus e, ko, pmk, st => by simp only [compile]
   theorem compileSeq_pd_false (env : CEnv) : ∀ (es : List Expr) (ko : Nat) (pmk : Bool) (st : CSt),
       compileSeq env es ko false pmk st = compileSeq env es ko false false st
